@@ -111,8 +111,14 @@ def parse(path):
                 raise ValueError("%s:%d: bad @at header %r" % (path, ln, rest))
             cur.ats.append((m.group(1), int(m.group(2) or 1), m.group(3), "\n".join(lines).strip("\n"), ln))
         elif d == "closure":
-            m = re.match(r"^(\d+)[ \t]+(.*)$", body, re.S)
-            cur.closures[int(m.group(1))] = (m.group(2).strip(), ln)
+            # @closure K <header>            K-th closure of the function
+            # @closure `|params|` [#K] <header>   K-th closure whose parameter list reads exactly |params|
+            m2 = re.match(r"^`([^`]*)`[ \t]*(?:#(\d+)[ \t]+)?(.*)$", body, re.S)
+            if m2:
+                cur.closures[("params", m2.group(1).replace(" ", ""), int(m2.group(2) or 1))] = (m2.group(3).strip(), ln)
+            else:
+                m = re.match(r"^(\d+)[ \t]+(.*)$", body, re.S)
+                cur.closures[int(m.group(1))] = (m.group(2).strip(), ln)
         elif d == "stub":
             cur.stub = rest.strip() or "stub"
         elif d == "skip":
